@@ -1034,6 +1034,12 @@ class TextXVisitor(RRELVisitor):
 
         except IndexError:
             to_match = ""
+        except ValueError as e:
+            # e.g. UnicodeDecodeError for a malformed \\N{...} or \\U escape
+            line, col = self.grammar_parser.pos_to_linecol(node.position)
+            raise TextXSyntaxError(
+                f"Invalid escape sequence in string match: {e}", line, col
+            ) from e
 
         # Support for autokwd metamodel param.
         if self.metamodel.autokwd:
